@@ -210,7 +210,7 @@ func (g *gen) compoundAssign() Stmt {
 		rhs = g.shiftAmount(t, 2)
 	} else {
 		rt := t
-		if t.K == TVec && g.chance(30, "cscal") {
+		if t.K == TVec && op != "&" && op != "|" && op != "^" && g.chance(30, "cscal") {
 			rt = t.ScalarOf()
 		}
 		rhs = g.expr(rt, g.exprDepth())
